@@ -186,6 +186,7 @@ type RollingFileAppender struct {
 // Start opens the initial log file.
 func (c *RollingFileAppender) Start() error {
 	now := time.Now()
+	now = verifNow(now)
 	nowTime := c.Rotation.Time(now)
 	filePath, file, err := c.createFile(c.Rotation.Format(now))
 	if err != nil {
@@ -204,8 +205,11 @@ func (c *RollingFileAppender) Append(e *Event) {
 // Write writes bytes to the current log file.
 func (c *RollingFileAppender) Write(b []byte) {
 	c.rotate()
+	verifRoll(c, 20)
 	if file := c.file.Load(); file != nil {
+		verifRoll(c, 21)
 		_, _ = file.Write(b)
+		verifRoll(c, 22)
 	}
 }
 
@@ -225,20 +229,24 @@ func (c *RollingFileAppender) Stop() {
 // If so, it closes the old file, opens a new one, and triggers cleanup.
 func (c *RollingFileAppender) rotate() {
 	now := time.Now()
+	now = verifNow(now)
 	nowTime := c.Rotation.Time(now)
 	oldTime := c.currTime.Load()
+	verifRoll(c, 1)
 	if nowTime <= oldTime {
 		return
 	}
 	if !c.currTime.CompareAndSwap(oldTime, nowTime) {
 		return
 	}
+	verifRoll(c, 2)
 
 	// Close the previous rotation file
 	if file := c.oldFile.Swap(nil); file != nil {
 		_ = file.Sync()
 		_ = file.Close()
 	}
+	verifRoll(c, 3)
 
 	filePath, file, err := c.createFile(c.Rotation.Format(now))
 	if err != nil {
@@ -248,10 +256,14 @@ func (c *RollingFileAppender) rotate() {
 	}
 
 	oldFile := c.file.Load()
+	verifRoll(c, 4)
 	c.oldFile.Store(oldFile)
+	verifRoll(c, 5)
 
 	c.file.Store(file)
+	verifRoll(c, 6)
 	c.currTime.Store(nowTime)
+	verifRoll(c, 7)
 
 	// Cleanup expired log files asynchronously
 	go c.clearExpiredFiles()
